@@ -986,6 +986,7 @@ def run_worker(repo: str, fam: str, jobs, depths, deep, timeout=1500):
     records, crashes = [], []
     todo = list(jobs)
     hello = None
+    t_start = time.time()
     while todo:
         job = dict(repo=repo, family=fam, jobs=todo, depths=depths, deep=deep)
         env = dict(os.environ)
@@ -1022,6 +1023,8 @@ def run_worker(repo: str, fam: str, jobs, depths, deep, timeout=1500):
             crashes.append({"op": begun[0], "build": begun[1], "rc": rc, "stderr": err[-600:]})
             done.add(begun)
         todo = [j for j in todo if tuple(j) not in done]
+    if hello is not None:
+        hello["wall_s"] = round(time.time() - t_start, 1)
     return records, crashes, hello
 
 
@@ -1115,16 +1118,25 @@ def run(ctx):
     ]
     depths = [50, 100, 200, 400] + ([800] if ctx.thorough else [])
     deep = [3000] + ([6000] if ctx.thorough else [])
+    deep_all = deep
+
+    def deep_of(fam):
+        # copying a builder-less tree costs O(depth) per element (_is_xml walks up to the root): half the depth, still
+        # well beyond the recursion limit
+        return [x // 2 for x in deep_all] if fam == "builderless" else deep_all
     nrand = ctx.n(3, 10)
     r = ctx.rng("families")
     fams = list(FAMILIES) + ["random:%d:%d" % (ctx.seed, r.randrange(10 ** 6)) for _ in range(nrand)]
     jobs = {fam: _jobs_for(fam) for fam in fams}
     t0 = time.time()
     with ThreadPoolExecutor(max_workers=min(16, len(fams))) as ex:
-        futs = {fam: ex.submit(run_worker, str(REPO), fam, jobs[fam], depths, deep) for fam in fams}
+        # longest first (builder-less copies are quadratic, `repeated` has three times the elements, markup-only families are short)
+        order = sorted(fams, key=lambda f: (0 if f == "builderless" else 1 if f == "repeated" else 3 if f in MARKUP_ONLY else 2))
+        futs = {fam: ex.submit(run_worker, str(REPO), fam, jobs[fam], depths, deep_of(fam)) for fam in order}
         results = {fam: f.result() for fam, f in futs.items()}
     ctx.extra["measure_wall_s"] = round(time.time() - t0, 1)
 
+    ctx.extra["family_wall_s"] = {fam: (h or {}).get("wall_s") for fam, (_, _, h) in results.items()}
     hello = next((h for _, _, h in results.values() if h), None)
     if hello:
         ctx.extra["interpreter"] = {"python": hello["py"], "recursionlimit": hello["limit"], "bs4": hello["bs4"]}
@@ -1147,6 +1159,7 @@ def run(ctx):
     for fam in fams:
         records, crashes, _ = results[fam]
         fam_key = fam.split(":")[0]
+        deep = deep_of(fam)
         for c in crashes:
             ctx.case(None)
             ctx.count("crash")
@@ -1223,7 +1236,9 @@ def run(ctx):
             if not ok_growth or not ok_deep:
                 if kind == "markup":
                     parse_flagged[fam] = True
-                what = ("the PARSE that builds the tree for this operation fails" if build_failed else
+                what = ("the invariant the parse bound rests on (side stacks = tag stack filtered by name) does not hold in the running parser"
+                        if any(isinstance(x, str) and "C11-invariant" in x for x in ds + dp) else
+                        "the PARSE that builds the tree for this operation fails" if build_failed else
                         "call depth grows with the nesting" if ints and not ok_growth else
                         "RecursionError/failure while measuring" if not ints else "RecursionError beyond the recursion limit")
                 i = depths.index(MODEL_D[0])
@@ -1267,7 +1282,7 @@ def run(ctx):
         if never:
             raise RuntimeError("operation(s) never ran on any family (harness defect): %s" % never)
     ctx.exhaustive_parts.append("every operation of the table x every shape family x {hand-linked, parsed} construction at depths %s and beyond the limit %s"
-                                % (depths, deep))
+                                % (depths, deep_all))
 
 
 def replay(path):
